@@ -16,7 +16,7 @@ func registerCLIModels(in *Interp) {
 	vxExtra["vxNameBytes"] = func(in *Interp, p *Path, fr *Frame, a []Val, s ssa.CallInstruction) Val {
 		x := a[0].(StringVal)
 		r := byteClass(p, x, func(b *Term) *Term {
-			return p.orN(inRange(p, b, 'a', 'z'), p.bvCmp("=", b, mkBV(8, '.')), p.bvCmp("=", b, mkBV(8, '_')))
+			return p.orN(inRange(p, b, 'a', 'z'), inRange(p, b, 'A', 'Z'), p.bvCmp("=", b, mkBV(8, '.')), p.bvCmp("=", b, mkBV(8, '_')))
 		})
 		return p.and(r, p.not(p.bvCmp("=", x.n, mkInt(0))))
 	}
@@ -96,7 +96,7 @@ func init() {
 			{Name: "VerifC16_Strict", Pkg: cliPkg, Solver: "z3", Stubs: stubs, MaxPaths: 400000, EngineReplay: true},
 		}
 		c.Assumptions = append(c.Assumptions,
-			"directory tree of fixed shape (root -> {dir -> {dir -> {file}, file}, file}) with symbolic names over [a-z._]: directory names of 1,2,6,7 bytes, file names of 3,4,9,10 bytes; WalkDir follows the documented contract (pre-order, SkipDir prunes) and is part of the harness",
+			"directory tree of fixed shape (root -> {dir -> {dir -> {file}, file}, file}) with symbolic names over [a-zA-Z._]: directory names of 1,2,6,7 bytes, file names of 3,4,9,10 bytes; WalkDir follows the documented contract (pre-order, SkipDir prunes) and is part of the harness",
 			"file sizes are arbitrary non-negative 64-bit values; stat/read failures and unloadable sources are symbolic flags; the Go loader (diff.FingerprintSourceAdvanced) is a stub that rejects exactly the marked sources",
 			"worker goroutines of ProcessFilesParallel are run to completion one after another (errgroup model); per-function coverage/attribution and the panic-recovery path are not claimed",
 			"the loader stub and the completion order of workers cannot be forced natively: counterexamples of the file-error harnesses that do not reproduce natively are confirmed by concrete re-execution of the SSA")
